@@ -798,6 +798,9 @@ func (e *EvalCtx) call(n *XNode) Val {
 			ds = append(ds, eq(r.T, num(int64(lit[i]))))
 		}
 		return S{or(ds...), boolT}
+	case "allocated":
+		need(0)
+		return S{e.heap("$bytes", "Int"), intT}
 	case "hasprefix":
 		need(2)
 		st := e.evalS(args[0])
